@@ -106,6 +106,17 @@ def corpus(ctx):
     return out
 
 
+def scenarios(ctx, rounds):
+    """two scenarios the independent-worker model cannot express: back-pressure between stage workers,
+    and a busy worker that exits while a Resume waits for it (real goroutines, watchdog)"""
+    for op in ("backpressure", "exitduringresume"):
+        rc, out, err = core.run_impl("pause", [json.dumps({"op": op, "rounds": rounds})], timeout=600)
+        ctx.case(op + str(rounds), True)
+        ctx.count("scenario:" + op + ":" + out[0].split(" ")[0])
+        if not out[0].startswith("ok"):
+            ctx.violation("%s: %s" % (op, out[0]), {"domain": "pause", "scenario": op, "rounds": rounds, "impl": out[0]})
+
+
 def run(ctx):
     r = ctx.rng
     hs = corpus(ctx)
@@ -116,6 +127,7 @@ def run(ctx):
         hs += list(histories(5, [0, 1, 2, 3]))
         hs += [(r.choice([1, 2, 4]), [r.choice(["pause", "resume"]) for _ in range(12)]) for _ in range(60)]
     run_hists(ctx, hs)
+    scenarios(ctx, 60 if ctx.thorough() else 10)
     ctx.sample({"workers": hs[-1][0], "calls": hs[-1][1]})
     ctx.cov["exhaustive"] = False
     ctx.assumptions += ["subscribers register before the first pause (stage workers subscribe at start-up)",
@@ -127,5 +139,7 @@ def run(ctx):
 
 def replay(ctx, doc):
     rp = doc.get("replay", doc)
+    if "scenario" in rp:
+        scenarios(ctx, rp.get("rounds", 10))
     if "ops" in rp:
         run_hists(ctx, [(rp.get("n", 1), rp["ops"])])
